@@ -140,7 +140,9 @@ def run(prog, rep, tier):
             r2.unanalysable("validate never pushes to result.%s" % f, fv.loc())
     is_zero = lambda x: x[0] == "const" and x[1] == 0
     is_origin = lambda x: x[0] != "const" and "as_number" not in expr_fields(x)
-    not_maxlen = lambda x: "max_length" not in expr_fields(x)
+    # the quantity compared with max_length must be the *route's* prefix length (`mask`, taken from the NLRI), not the
+    # covering VRP's own length the lookup loop iterates over
+    not_maxlen = lambda x: "max_length" not in expr_fields(x) and ("mask" in expr_vars(x) or "mask" in expr_fields(x))
     for b, bi in pushes.get("matched", []):
         rels = rels_for(b, bi)
         probs = []
@@ -223,7 +225,20 @@ def run(prog, rep, tier):
         r2.fail(fv.name, "origin-derivation", "the origin AS is not derived with as_path_origin", fv.loc())
 
     # ---------------------------------------------------------------- R12.3
-    r3 = rep.rule("R12.3", "insert's duplicate test and remove's retain test compare the same identity fields")
+    r3 = rep.rule("R12.3", "insert's duplicate test and remove's retain test compare the same identity fields; the purge of a cache's VRPs skips none")
+    from ..util import remove_while_indexing
+    dsv = view(prog, prog.one(r"rustybgp_table::RpkiTable::drop_source"))
+    r3.analysed(dsv.name)
+    for rb, il, bad in remove_while_indexing(dsv):
+        if bad is None:
+            r3.ok("drop_source: the index is not advanced after Vec::remove(i)")
+        else:
+            r3.fail(dsv.name, "remove-then-advance", "drop_source advances the index (line %d) right after removing element i: VRPs of a dropped cache survive and keep validating routes" % dsv.line(bad), dsv.loc(rb))
+    check_vrp_identity(prog, r3)
+
+
+def check_vrp_identity(prog, r3):
+    """A VRP is identified by (cache, max-length, AS): insert's duplicate test, remove's retain test and drop_source agree."""
     sets = {}
     for m in ("insert", "remove"):
         k = prog.one(r"rustybgp_table::RpkiTable::" + m)
